@@ -121,7 +121,9 @@ def diff_call(ir, mr):
         if ir['events'] != mr['events']:
             d.append(('events', 'impl=%r model=%r' % (ir['events'], mr['events'])))
         if ir['rng'] != mr['rng']:
-            d.append(('rng', 'impl=%r model=%r' % (ir['rng'][:4], mr['rng'][:4])))
+            k = next((j for j, (x, y) in enumerate(zip(ir['rng'], mr['rng'])) if x != y), min(len(ir['rng']), len(mr['rng'])))
+            d.append(('rng', 'lengths impl=%d model=%d, first difference at %d: impl=%r model=%r' % (
+                len(ir['rng']), len(mr['rng']), k, ir['rng'][k:k + 2], mr['rng'][k:k + 2])))
         if ir['locks'] != mr['locks']:
             d.append(('locks', 'impl=%r model=%r' % (ir['locks'], mr['locks'])))
         if ir['bal'] != mr['bal']:
